@@ -549,10 +549,26 @@ fn confirm_replay(path: &str, sig: &str) -> bool {
         Ok(e) => e,
         Err(_) => return false,
     };
-    match std::process::Command::new(exe).arg("replay").arg(path).output() {
-        Ok(out) => {
-            let s = String::from_utf8_lossy(&out.stdout);
-            out.status.code() == Some(1) && s.lines().any(|l| l.starts_with("signature ") && l[10..].trim() == sig)
+    // the confirmation must not depend on the machine being idle: a spawn that fails (process or memory limits under load)
+    // is retried, and as a last resort the file is read back and replayed in this process
+    for attempt in 0..4 {
+        match std::process::Command::new(&exe).arg("replay").arg(path).output() {
+            Ok(out) if out.status.code().is_some() => {
+                let s = String::from_utf8_lossy(&out.stdout);
+                return out.status.code() == Some(1) && s.lines().any(|l| l.starts_with("signature ") && l[10..].trim() == sig);
+            }
+            Ok(_) | Err(_) => {
+                eprintln!("note: could not run the fresh-process replay of {} (attempt {})", path, attempt + 1);
+                std::thread::sleep(std::time::Duration::from_millis(300));
+            }
+        }
+    }
+    match read_replay(path, &|n| checks::names_of(n)) {
+        Ok(rp) => {
+            let e = checks::engine(&rp.cfg.engine).unwrap();
+            let r = run_trace(e.make, &rp.cfg, &rp.ops);
+            eprintln!("note: {} confirmed by reading the file back in this process instead", path);
+            r.violations.iter().any(|v| v.signature() == sig)
         }
         Err(_) => false,
     }
